@@ -4,6 +4,7 @@ import (
 	"fmt"
 	"math"
 	"reflect"
+	"sort"
 	"strconv"
 	"strings"
 	"time"
@@ -316,6 +317,9 @@ func streamC18(c *Ctx) {
 		}
 	}
 	if !c18SameNamedTypes(c, g) {
+		return
+	}
+	if !c18StructFamily(c, g) {
 		return
 	}
 	if !c18Rename(c, dr, g) {
@@ -858,4 +862,113 @@ func c18SameNamedTypes(c *Ctx, g *Gen) bool {
 		c.Count("same-named-type")
 	}
 	return true
+}
+
+// ---- struct -> document -> struct over a declared family with every way a struct can sit inside another ----
+
+type RtBase struct {
+	ID      string `clover:"ident"`
+	Created time.Time
+}
+type RtInner struct {
+	N int    `clover:"num"`
+	S string `clover:"s,omitempty" json:"str"`
+}
+type RtOuter struct {
+	RtBase
+	Name  string               `clover:"name"`
+	In    RtInner              `clover:"inner"`
+	PIn   *RtInner             `clover:"pinner"`
+	List  []RtInner            `clover:"list"`
+	Arr   [2]RtInner           `json:"arr"`
+	M     map[string]RtInner   // no tags
+	PL    []*RtInner           `clover:"pl"`
+	Deep  map[string][]RtInner `clover:"deep" json:"deeper"`
+	LL    [][]RtInner          `clover:"ll"`
+	Score float32
+	Tags  []string `clover:"tags,omitempty"`
+}
+
+func c18StructFamily(c *Ctx, g *Gen) bool {
+	inner := func() RtInner { return RtInner{N: g.pick(50) - 10, S: []string{"", "a", "long string"}[g.pick(3)]} }
+	for i := 0; i < c.N(600, 8000); i++ {
+		o := RtOuter{RtBase: RtBase{ID: fmt.Sprint("id", g.pick(100)), Created: time.Unix(int64(g.pick(1e9)), int64(g.pick(1e9))).UTC()}, Name: fmt.Sprint("n", i), In: inner(), Arr: [2]RtInner{inner(), inner()}, Score: float32(g.pick(8)) / 2}
+		if g.pick(2) == 0 {
+			v := inner()
+			o.PIn = &v
+		}
+		for k := g.pick(4); k > 0; k-- {
+			o.List = append(o.List, inner())
+			v := inner()
+			o.PL = append(o.PL, &v)
+		}
+		if g.pick(3) != 0 {
+			o.M = map[string]RtInner{}
+			o.Deep = map[string][]RtInner{}
+			for k := g.pick(3); k > 0; k-- {
+				o.M[fmt.Sprint("k", k)] = inner()
+				o.Deep[fmt.Sprint("d", k)] = []RtInner{inner(), inner()}
+			}
+		}
+		if g.pick(2) == 0 {
+			o.LL = [][]RtInner{{inner()}, {}, {inner(), inner()}}
+		}
+		if g.pick(2) == 0 {
+			o.Tags = []string{"x", "y"}
+		}
+		c.Evals++
+		doc := d.NewDocumentOf(o)
+		var back RtOuter
+		var err error
+		pan := ""
+		func() {
+			defer func() {
+				if r := recover(); r != nil {
+					pan = fmt.Sprint(r)
+				}
+			}()
+			err = doc.Unmarshal(&back)
+		}()
+		want, got := fmt.Sprintf("%+v", derefOuter(o)), fmt.Sprintf("%+v", derefOuter(back))
+		if doc == nil || pan != "" || err != nil || want != got || !back.Created.Equal(o.Created) {
+			c.Violation(&Replay{Stream: "norm", Case: []interface{}{J{"k": "struct-family-roundtrip", "i": i}}, Expected: []string{want}, Actual: []string{got, fmt.Sprint(err), pan},
+				Note: "a struct converted to a document and unmarshalled back differs (embedded structs, structs in slices, arrays and maps, behind pointers)"})
+			return false
+		}
+		// and the stored names are the clover names, at every level
+		if doc.Get("ident") != o.ID || !doc.Has("inner.num") || doc.Has("RtBase") || (len(o.List) > 0 && !strings.Contains(canonDoc(doc.AsMap()), hx("num"))) {
+			c.Violation(&Replay{Stream: "norm", Case: []interface{}{J{"k": "struct-family-roundtrip", "i": i}}, Actual: []string{canonDoc(doc.AsMap())}, Note: "a struct is not stored under its clover names (embedded fields flattened)"})
+			return false
+		}
+		c.NonTrivial(fmt.Sprint("struct-family", len(o.List), len(o.M), o.PIn != nil, len(o.LL)))
+	}
+	return true
+}
+
+// derefOuter replaces pointers and times by printable values (pointers print as addresses, times carry a location pointer)
+func derefOuter(o RtOuter) interface{} {
+	pin := "nil"
+	if o.PIn != nil {
+		pin = fmt.Sprintf("%+v", *o.PIn)
+	}
+	pl := []RtInner{}
+	for _, p := range o.PL {
+		if p != nil {
+			pl = append(pl, *p)
+		}
+	}
+	keys := func(m map[string]RtInner) string {
+		ks := []string{}
+		for k, v := range m {
+			ks = append(ks, fmt.Sprintf("%s=%+v", k, v))
+		}
+		sort.Strings(ks)
+		return strings.Join(ks, ",")
+	}
+	dk := []string{}
+	for k, v := range o.Deep {
+		dk = append(dk, fmt.Sprintf("%s=%+v", k, v))
+	}
+	sort.Strings(dk)
+	return []interface{}{o.ID, o.Created.UnixNano(), o.Name, o.In, pin, fmt.Sprintf("%+v", o.List), o.Arr, keys(o.M), pl, strings.Join(dk, ","), fmt.Sprintf("%+v", o.LL), o.Score, fmt.Sprint(len(o.Tags), o.Tags)}
 }
